@@ -503,59 +503,66 @@ def _state_flags(chk, facts):
     # (a) setters
     try:
         n = 0
+        # each setter is folded over a state whose fields are distinct symbols (rules/smalleval.py): the result must be that state with
+        # exactly the setter's own field replaced - however the copy is written (struct update, clone-and-assign, a `with` helper)
+        from .smalleval import SmallEval, NoEval
+        st_struct = syn.structs.get("generate::convert::state::State")
+        if not st_struct:
+            raise AnchorError("struct generate::convert::state::State not found")
+        fields_all = [fn_ for fn_, _ in st_struct["fields"]]
+        methods = {f_["name"]: f_ for f_ in syn.fns if f_["mod"] == "generate::convert::state" and "State" == (f_.get("impl_of") or "").strip() and f_.get("body")}
         for setter, field in STATE_SETTERS.items():
             f = syn.one_fn(setter, mod="generate::convert::state", impl_of="State")
-            structs = [x for x in walk(f["body"]) if x.get("k") == "struct" and x["p"] == "State"]
-            ok = bool(structs)
-            for st in structs:
-                names = [k for k, _ in st["fields"]]
-                rest = src(strip(st.get("rest") or {})).replace(" ", "")
-                ok = ok and names == [field] and rest in ("self.clone()", "self")
+            ev_s = SmallEval()
+            ev_s.local_methods = methods
+            self_v = {"__struct__": "State"}
+            self_v.update({fn_: ("sym", "old." + fn_) for fn_ in fields_all})
+            params = [i_["pat"]["name"] for i_ in f["sig"]["inputs"][1:] if i_.get("pat", {}).get("k") == "pident"]
+            import itertools
+            tys = [str(i_.get("ty", "")).replace(" ", "") for i_ in f["sig"]["inputs"][1:] if i_.get("pat", {}).get("k") == "pident"]
+            choices = [([None, ("Some", ("sym", "arg." + p_))] if t_.startswith("Option<") else [("sym", "arg." + p_)]) for p_, t_ in zip(params, tys)]
+            ok, why_s = True, ""
+            try:
+                for args in itertools.product(*choices):
+                    res_v = ev_s.call(f, [dict(self_v)] + list(args))
+                    if not isinstance(res_v, dict):
+                        ok, why_s = False, "does not yield a State"
+                        break
+                    changed = sorted(fn_ for fn_ in fields_all if res_v.get(fn_) != self_v[fn_])
+                    # exactly the own field changes (or nothing, when the new value happens to be the old one), and its new value is
+                    # built from the parameters only
+                    if not (changed == [field] or (changed == [] and not params)) or "old." in repr(res_v.get(field)) and changed == [field]:
+                        ok, why_s = False, f"changes {changed}"
+                        break
+            except NoEval as ex:
+                ok, why_s = False, f"could not be evaluated ({ex})"
             chk.ob("R-C01-7", f"setter:{setter}", ok, f"State::{setter} sets `{field}` and copies the rest" if ok else
-                   f"State::{setter} no longer sets exactly `{field}`: another desugaring flag changes with it", facts.loc_of(f))
+                   f"State::{setter} no longer sets exactly `{field}` ({why_s}): another desugaring flag changes with it", facts.loc_of(f))
             n += 1
         chk.floor("R-C01-7", n, 8, "State setters")
     except AnchorError as e:
         chk.anchor_fail("R-C01-7", e)
-    # (b) sites
-    got = Counter()
-    locs = {}
-    for f in syn.fns:
-        if not f["mod"].startswith("generate::convert") or f["mod"].endswith("::state") or "test" in f["mod"] or not f.get("body"):
-            continue
-        # bindings of NodeTy fields in this function: local name -> field
-        bound = {}
-        for p in walk(f["body"]):
-            if p.get("k") == "pstruct" and p["p"].startswith("NodeTy::"):
-                for fname, fp in p["fields"]:
-                    for m in walk(fp):
-                        if m.get("k") == "pident":
-                            bound[m["name"]] = fname
-        for n in walk(f["body"]):
-            if n.get("k") == "mcall" and n["m"] in ("is_last_must_be_ret", "must_assign_to", "remove_ret") and n["args"]:
-                a = strip(n["args"][0])
-                s = src(a).replace(" ", "")
-                if s in ("true", "false", "None"):
-                    cls = s
-                elif a.get("k") == "mcall" and a["m"] == "is_some" and src(strip(a["recv"])) in bound:
-                    cls = f"field:{bound[src(strip(a['recv']))]}.is_some()"
-                elif n["m"] == "must_assign_to":
-                    cls = "Some"
-                else:
-                    cls = "other:" + s[:40]
-                got[(f["name"], n["m"], cls)] += 1
-                locs[(f["name"], n["m"], cls)] = facts.loc_of(f)
-    for k in sorted(set(got) | set(STATE_SITES_REVIEWED)):
-        want = STATE_SITES_REVIEWED.get(k)
-        fn, setter, cls = k
-        key = f"site:{fn}.{setter}({cls})"
-        if want is None:
-            chk.ob("R-C01-7", key, False, f"{fn} calls State::{setter}({cls}): a new place where a return/assignment is requested or suppressed - not reviewed "
-                   "(an implicit return or assignment can appear or disappear for some program shape)", locs.get(k))
-        elif got[k] != want[0]:
-            chk.ob("R-C01-7", key, False, f"{fn}: {got[k]} calls of State::{setter}({cls}), {want[0]} reviewed ({want[1]})", locs.get(k))
-        else:
-            chk.ob("R-C01-7", key, True, f"{fn}: State::{setter}({cls}) x{want[0]} - {want[1]}")
+    # (b) under which state each child is converted (rules/stateuse.py): the rows found are exactly the reviewed ones
+    from . import stateuse
+    from .common import load_table
+    table = load_table("c01_state_use.json")
+    want = {(r["owner"], r["callee"], r["child"], r["root"], tuple(r["setters"])): r["why"] for r in table["rows"]}
+    got = stateuse.rows(syn)
+    conv_fn = {f["name"]: f for f in syn.fns if f["mod"].startswith("generate::convert")}
+    for row in got:
+        owner, callee, child, root, setters = row
+        ok = row in want
+        chk.ob("R-C01-7", f"under:{owner}|{callee}|{child}|{','.join(setters) or 'inherited'}", ok,
+               f"{owner}: {child} is converted ({callee}) under {'the inherited state' if not setters else ' + '.join(setters)} - {want.get(row, '')}" if ok else
+               f"{owner} converts `{child}` ({callee}) under {'the inherited state' if not setters else ' + '.join(setters)}: not a reviewed combination - "
+               "an implicit return or assignment can appear or disappear for some program shape (a condition converted under the pending return is returned; "
+               "a branch that loses it returns nothing)", facts.loc_of(conv_fn[owner]) if owner in conv_fn else None)
+    for row in sorted(set(want) - set(got)):
+        owner, callee, child, root, setters = row
+        chk.ob("R-C01-7", f"under:{owner}|{callee}|{child}|{','.join(setters) or 'inherited'}", False,
+               f"{owner} no longer converts `{child}` under {'the inherited state' if not setters else ' + '.join(setters)} ({want[row]})",
+               facts.loc_of(conv_fn[owner]) if owner in conv_fn else None)
+    chk.floor("R-C01-7", len(got), 100, "conversions under a state")
     # (c) only IfElse / Match get the unreset state
     try:
         t2c, cn = chain.nodety_to_core(facts)
